@@ -93,7 +93,8 @@ def domParamCommon (p : Param) : Bool :=
 
 def domClassParam (p : Param) : Bool :=
   domParamCommon p &&
-  (p.default != some (.str [])) &&                           -- '' leaves a dangling "Defaults to" in the prose
+  -- '' is the zero value of `str`; under any other str-like type it is treated as absent (truthiness test)
+  (p.default != some (.str []) || p.typ == some tStr) &&
   (p.typ != some ['d', 'i', 'c', 't'])
 
 /-! ### function / method -/
@@ -104,7 +105,7 @@ def normFuncParam (p : Param) : Param :=
   | none => { p with default := some vNoneStr }
 
 def domFuncParam (inlineTypes : Bool) (p : Param) : Bool :=
-  domParamCommon p && (p.default != some (.str [])) &&
+  domParamCommon p &&
   -- see domDocParam: "Defaults to None" in the prose of a scalar-typed entry misleads the next kind
   (match p.typ, p.default with | some t, some v => !(isScalar t && isNoneVal v) | _, _ => true) &&
   (!inlineTypes ||
@@ -158,7 +159,7 @@ def domDocParam (p : Param) : Bool :=
   -- which the next AST kind reads differently from the IR's default: left outside
   (match p.typ, p.default with | some t, some v => !(isScalar t && isNoneVal v) | _, _ => true) &&
   (match p.default with
-   | some (.str s) => !s.isEmpty && !s.contains '.'
+   | some (.str s) => !s.contains '.'
    | _ => true) &&
   (match p.doc with | some d => !containsSub d ['e', 'f', 'a', 'u', 'l', 't', 's'] | none => true)
 
